@@ -7,6 +7,10 @@
 //!    kinds, 13 receipt kinds, StorageSlot, UtxoId, TxPointer, Witness, both
 //!    UpgradePurpose variants, Mint;
 //!  * Policies: all 64 masks × all combinations of in-domain value classes (10,000);
+//!  * length boundary: a Witness (thorough: also a CoinPredicate predicate_data and a
+//!    Script script_data) of exactly VEC_DECODE_LIMIT-1 and VEC_DECODE_LIMIT bytes (the
+//!    longest vector the decoder accepts must also be encodable; exact-buffer decode
+//!    only, run one at a time); VEC_DECODE_LIMIT+1 is recorded only;
 //!  * transactions: quick = star sub-product of TX(2) (each dimension over its full
 //!    domain at two base points, all input-kind × output-kind pairs, every kind) with and
 //!    without precomputed metadata; thorough = the full product 6 kinds ×
@@ -44,6 +48,7 @@ use fuel_types::{
     canonical::{
         Deserialize,
         Serialize,
+        VEC_DECODE_LIMIT,
     },
     ChainId,
 };
@@ -77,6 +82,8 @@ struct Acc {
     outcomes: BTreeMap<String, u64>,
     /// first violation per key (in enumeration order) + number of occurrences
     viols: BTreeMap<String, (String, Value, u64)>,
+    /// ~100 MiB values: decode the exact buffer once (no sentinel copy, no second decode)
+    lean: bool,
 }
 
 impl Acc {
@@ -179,8 +186,15 @@ where
         Some(c) => key(c),
         None => key(class),
     };
-    let mut ext = bytes.clone();
-    ext.extend_from_slice(&SENTINEL);
+    let ext_owned: Vec<u8>;
+    let ext: &[u8] = if acc.lean {
+        &bytes
+    } else {
+        let mut e = bytes.clone();
+        e.extend_from_slice(&SENTINEL);
+        ext_owned = e;
+        &ext_owned
+    };
     let dec = guard::catch_any(|| {
         let mut buf = &ext[..];
         let r = T::decode(&mut buf);
@@ -224,7 +238,7 @@ where
         }
     }
     // 3. exact buffer through the convenience entry point
-    if ok {
+    if ok && !acc.lean {
         match guard::catch_any(|| T::from_bytes(&bytes)) {
             Ok(Ok(v3)) if eqv(v, &v3) => {}
             Ok(other) => {
@@ -340,6 +354,92 @@ fn observe_exempt(bytes: &[u8], acc: &mut Acc) {
     }
 }
 
+/// Boundary family: byte vectors of length VEC_DECODE_LIMIT-1 and VEC_DECODE_LIMIT (the
+/// largest the decoder accepts) must encode and round-trip like any other value; length
+/// VEC_DECODE_LIMIT+1 is outside the wire domain and only recorded. ~100 MiB per value:
+/// called sequentially, a handful of cases.
+const BOUNDARY_FAMILIES: [&str; 3] =
+    ["Witness", "Input::CoinPredicate.predicate_data", "Transaction::Script.script_data"];
+
+fn boundary_len_name(n: usize) -> String {
+    match n as i128 - VEC_DECODE_LIMIT as i128 {
+        0 => "VEC_DECODE_LIMIT".to_string(),
+        d if d < 0 => format!("VEC_DECODE_LIMIT{d}"),
+        d => format!("VEC_DECODE_LIMIT+{d}"),
+    }
+}
+
+fn check_boundary(family: &str, n: usize, acc: &mut Acc) {
+    let t0 = std::time::Instant::now();
+    struct P(std::time::Instant, usize);
+    impl Drop for P { fn drop(&mut self) { eprintln!("T   case n={} {:?}", self.1, self.0.elapsed()); } }
+    let _p = P(t0, n);
+    let case = || json!({"space": "boundary", "family": family, "idx": n});
+    let ty = family.split('.').next().unwrap_or(family);
+    let name = format!("{ty}:len={}", boundary_len_name(n));
+    let fp = Some(hash64(&("boundary", family, n)));
+    let payload = vec![0xABu8; n];
+    let in_domain = n <= VEC_DECODE_LIMIT;
+    acc.lean = true;
+    // information only for lengths outside the wire domain: who refuses?
+    fn info<T: Serialize + Deserialize>(v: &T, label: &str, acc: &mut Acc) {
+        acc.evals += 1;
+        let enc = guard::catch_any(|| {
+            let mut buf = Vec::new();
+            v.encode(&mut buf).map(|_| buf)
+        });
+        let what = match enc {
+            Err(_) => "encode_panicked".to_string(),
+            Ok(Err(e)) => format!("encode_refused({e:?})"),
+            Ok(Ok(buf)) => match guard::catch_any(|| T::from_bytes(&buf)) {
+                Err(_) => "encoded_then_decode_panicked".to_string(),
+                Ok(Err(e)) => format!("encoded_then_decode_refused({e:?})"),
+                Ok(Ok(_)) => "encoded_and_decoded".to_string(),
+            },
+        };
+        acc.outcome(&format!("info_{label}:{what}"));
+    }
+    match family {
+        "Witness" => {
+            let v = fuel_tx::Witness::from(payload);
+            if in_domain {
+                check_value(&v, &name, txcorpus::spec_len_witness(&v), &plain_eq, None, fp, &case, acc);
+            } else {
+                info(&v, &name, acc);
+            }
+        }
+        "Input::CoinPredicate.predicate_data" => {
+            // non-empty predicate: outside the F2 ambiguity class
+            let v = fuel_tx::Input::coin_predicate(
+                Default::default(),
+                Default::default(),
+                1,
+                Default::default(),
+                Default::default(),
+                2,
+                vec![0x24],
+                payload,
+            );
+            if in_domain {
+                check_value(&v, &name, txcorpus::spec_len_input(&v), &plain_eq, None, fp, &case, acc);
+            } else {
+                info(&v, &name, acc);
+            }
+        }
+        "Transaction::Script.script_data" => {
+            let v: Transaction =
+                Transaction::script(3, vec![0x24], payload, Policies::new(), vec![], vec![], vec![]).into();
+            if in_domain {
+                check_value(&v, &name, txcorpus::spec_len_tx(&v), &plain_eq, None, fp, &case, acc);
+            } else {
+                info(&v, &name, acc);
+            }
+        }
+        other => panic!("unknown boundary family {other}"),
+    }
+    acc.lean = false;
+}
+
 fn check_policies(set: &str, idx: u64, p: &Policies, acc: &mut Acc) {
     let case = || json!({"space": "policies", "set": set, "idx": idx});
     if set == "out_of_domain" {
@@ -427,6 +527,7 @@ fn explore(ctx: &Ctx) {
             "Policies with maturity/expiration > u32::MAX (outside the wire domain; decoder rejects them) — recorded as info_* outcomes",
             "split of size() into size_static()/size_dynamic() beyond their sum",
             "validity of the enumerated transactions (C01 quantifies over all values)",
+            "byte vectors longer than VEC_DECODE_LIMIT (outside the wire domain; who refuses them is recorded as info_* outcomes)",
         ]),
     );
     let lens = ctx.pick(Lens::L, Lens::Lbig);
@@ -474,6 +575,28 @@ fn explore(ctx: &Ctx) {
     ctx.sample(json!({"policies_idx": all.len() - 1, "value": short(&all[all.len() - 1]),
                       "encoded": hex_head(&all[all.len() - 1].to_bytes()), "verdict": "round-trips"}));
 
+    eprintln!("T before boundary {:.2}", ctx.elapsed());
+    // ---- B2. length boundary of byte vectors (sequential: ~100 MiB per value)
+    {
+        let mut acc = Acc::default();
+        let lens = [VEC_DECODE_LIMIT - 1, VEC_DECODE_LIMIT, VEC_DECODE_LIMIT + 1];
+        // touching fresh 100 MiB buffers dominates: quick = Witness only, thorough = all
+        let families = &BOUNDARY_FAMILIES[..ctx.pick(1, BOUNDARY_FAMILIES.len())];
+        for family in families {
+            for n in lens {
+                check_boundary(family, n, &mut acc);
+            }
+        }
+        acc.flush(ctx);
+        ctx.set(
+            "length_boundary",
+            json!({"families": families, "lengths": lens.iter().map(|n| boundary_len_name(*n)).collect::<Vec<_>>(),
+                   "VEC_DECODE_LIMIT": VEC_DECODE_LIMIT,
+                   "oracle": "full C01 oracle for lengths <= VEC_DECODE_LIMIT; VEC_DECODE_LIMIT+1 recorded as info_* outcome only"}),
+        );
+    }
+
+    eprintln!("T after boundary {:.2}", ctx.elapsed());
     // ---- C. transactions
     let star_n = txcorpus::tx_count(CorpusLevel::Star);
     for precomputed in [false, true] {
@@ -564,6 +687,9 @@ fn replay(case: &Value, ctx: &Ctx) {
             let leaf = Leaf::from_name(case["leaf"].as_str().expect("leaf")).expect("known leaf");
             let lens = Lens::from_name(case["lens"].as_str().unwrap_or("L"));
             check_leaf(leaf, lens, idx, &mut acc);
+        }
+        Some("boundary") => {
+            check_boundary(case["family"].as_str().expect("family"), idx as usize, &mut acc);
         }
         Some("policies") => {
             let set = case["set"].as_str().expect("set");
